@@ -17,6 +17,7 @@ import json
 import os
 import random
 import re
+import shlex
 import shutil
 import subprocess
 import sys
@@ -344,8 +345,11 @@ Local Open Scope list_scope.
 
 
 def _coqc_cases(path: Path) -> tuple[int, str]:
-    r = sh(["timeout", "900", "coqc", "-Q", "theories", "LQ", "-w", "none",
-            str(path.relative_to(COQ))], cwd=COQ, timeout=1000)
+    # large literal terms need a deep stack in coqc's parser / printer: lift the soft limit
+    # (a shard must evaluate whatever VERIF_JOBS makes its size)
+    cmd = ("ulimit -s unlimited 2>/dev/null || ulimit -s $(ulimit -H -s) 2>/dev/null; "
+           "exec timeout 900 coqc -Q theories LQ -w none " + shlex.quote(str(path.relative_to(COQ))))
+    r = sh(["bash", "-c", cmd], cwd=COQ, timeout=1000)
     return r.returncode, r.stdout
 
 
